@@ -297,6 +297,13 @@ func (pr *printer) wp(expr, poison string) string {
 	if !pr.p.Bare {
 		return pr.w(expr)
 	}
+	if m := pr.p.BareMix; m > 0 && pr.nbare > 0 && pr.site%m == m-1 {
+		// a call in the middle of the bare identifiers; it poisons the
+		// variables printed so far
+		s := fmt.Sprintf("rt.AP(x, %d, %s, func() {\n%s\t})", pr.site, expr, pr.poison.String())
+		pr.site++
+		return s
+	}
 	name := fmt.Sprintf("b%d", pr.nbare)
 	if pr.p.Shadow && pr.nbare < len(bareShadowNames) {
 		name = bareShadowNames[(pr.p.nameOffset()+pr.nbare)%len(bareShadowNames)]
